@@ -424,6 +424,9 @@ func parent(prop, level string, scenarios []Scenario, describe func(r *mc.Run)) 
 	var jobs sync.WaitGroup
 	var stderrMu sync.Mutex
 	for _, s := range scenarios {
+		if f := os.Getenv("VERIF_SCENARIOS"); f != "" && !strings.Contains(s.Name, f) {
+			continue // debugging aid: restrict the run to scenarios whose name contains the filter
+		}
 		for pi, ph := range phases(s, r.Tier) {
 			s, pi, ph := s, pi, ph
 			jobs.Add(1)
